@@ -4,6 +4,7 @@
 //! bidirectional index<->document audit (C02) used by every other monitor as well.
 
 pub mod audit;
+pub mod crash;
 pub mod driver;
 
 use anda_db::{
